@@ -128,6 +128,9 @@ def _build(cfg, w, nan=False, fortran=False):
     flows, F = {}, {}
     for i, ((a, b), d) in enumerate(zip(cfg["flows"], cfg["fdims"])):
         name = f"{a} => {b} #{i}" if not cfg.get("short_names") else f"{a} => {b}"
+        if cfg.get("name_style") == "runs":
+            # names that differ only in the length of a run of blanks / dashes (distinct names, distinct files)
+            name = f"{a} =>{' ' * (i + 1)}{b}{' -' * (i % 2)} flow"
         name = cfg.get("name_prefix", "") + name + cfg.get("name_suffix", "")
         shape = tuple(LENS[l] for l in d)
         V = w.arr(f"f{i}", shape)
